@@ -255,6 +255,91 @@ theorem jvp_groups (ad : AD) (vt : Vars) (varF rngF : LFilter) (attrs : List (St
   | error e => rfl
   | ok r => obtain ⟨y, ty, aux, out, ctr'⟩ := r; rfl
 
+private theorem aux_jvp_forward (ad : AD) (vt : Vars) (varF rngF : LFilter)
+    (attrs : List (String × Int)) (f : Fn) (args tangents : List Int) (s : ScopeSt) :
+    match liftJvp ad vt varF rngF attrs f args tangents s, liftId [jvpTarget vt, varF] [varF] [rngF] .tt attrs f args s with
+    | .ok (r, s1), .ok (y, s2) => r.1 = y.vals ∧ s1 = s2
+    | .error e, .error e' => e = e'
+    | _, _ => False := by
+  rw [jvp_groups]
+  have hval := ad.jvp_val (vjpClosure attrs f false 0 (partialPack [jvpTarget vt, varF] [varF] [rngF] s)
+    (restGroup s (jvpTarget vt) varF) s.counters) (selGroup s (jvpTarget vt), args) (jvpTangents vt, tangents)
+  have hg2 : (partialPack [jvpTarget vt, varF] [varF] [rngF] s).varGroups =
+      [selGroup s (jvpTarget vt), restGroup s (jvpTarget vt) varF] := by
+    simp [partialPack, aux_groups]
+  simp only [liftId, pack]
+  rw [hg2]
+  cases hv : ad.jvp (vjpClosure attrs f false 0 (partialPack [jvpTarget vt, varF] [varF] [rngF] s)
+      (restGroup s (jvpTarget vt) varF) s.counters) (selGroup s (jvpTarget vt), args) (jvpTangents vt, tangents) with
+  | error e =>
+    rw [hv] at hval
+    simp only [vjpClosure] at hval
+    cases hr : runInner attrs f args LFilter.tt (partialPack [jvpTarget vt, varF] [varF] [rngF] s)
+        [selGroup s (jvpTarget vt), restGroup s (jvpTarget vt) varF]
+        (partialPack [jvpTarget vt, varF] [varF] [rngF] s).rngGroups s.counters with
+    | error e' => simp only [hr] at hval; simp only; exact (Except.error.inj hval)
+    | ok q => obtain ⟨y, out, c⟩ := q; simp [hr] at hval
+  | ok q =>
+    obtain ⟨y, ty, aux, out, ctr'⟩ := q
+    rw [hv] at hval
+    simp only [vjpClosure] at hval
+    cases hr : runInner attrs f args LFilter.tt (partialPack [jvpTarget vt, varF] [varF] [rngF] s)
+        [selGroup s (jvpTarget vt), restGroup s (jvpTarget vt) varF]
+        (partialPack [jvpTarget vt, varF] [varF] [rngF] s).rngGroups s.counters with
+    | error e' => simp [hr] at hval
+    | ok q2 =>
+      obtain ⟨y2, out2, c2⟩ := q2
+      simp only [hr, Except.ok.injEq, Prod.mk.injEq, splitAux] at hval
+      obtain ⟨h1, h2, h3, h4⟩ := hval
+      subst h1; subst h3; subst h4
+      simp only
+      cases publish { s with counters := ctr' } out with
+      | error e => trivial
+      | ok s3 => exact ⟨rfl, rfl⟩
+
+/-- `nn.jvp`: the primal output is the plain call's, and the forward pass's side effects are published exactly once
+(same hypotheses as for `nn.vjp`, the differentiated collections being those with a non-empty tangent) -/
+theorem jvp_forward_effects_published_once (ad : AD) (vt : Vars) (varF rngF : LFilter)
+    (attrs : List (String × Int)) (f : Fn) (args tangents : List Int) (s : ScopeSt) (hwf : VarsWF s.vars) (hfz : s.FrozenOk)
+    (hin : ∀ c, c ∈ cols f.body → (inFilter (jvpTarget vt) c || inFilter varF c) = true)
+    (hout : ∀ c, c ∈ wcols f.body → inFilter s.mutable c = true → inFilter varF c = true)
+    (hrng : ∀ r, r ∈ rngDeps f.body → (alookup r s.rngs).isSome = true → inFilter rngF r = true) :
+    match runFn attrs f args s, liftJvp ad vt varF rngF attrs f args tangents s with
+    | .ok (y, s1), .ok (r, s2) => r.1 = y.vals ∧ SameVars s1.vars s2.vars ∧ s1.counters = s2.counters
+    | .error e, .error e' => e = e'
+    | _, _ => False := by
+  have h1 := aux_jvp_forward ad vt varF rngF attrs f args tangents s
+  have h2 := liftId_agree [jvpTarget vt, varF] [varF] [rngF] .tt attrs f args s hwf hfz
+    (by intro c hc; simpa [anyMatch] using hin c hc)
+    (by intro c hc hm; simp [anyMatch, hout c hc hm, inFilter])
+    (by intro r hr hs; simp [anyMatch, hrng r hr hs])
+  cases hp : runFn attrs f args s with
+  | error e =>
+    cases hl : liftId [jvpTarget vt, varF] [varF] [rngF] .tt attrs f args s with
+    | ok q => obtain ⟨y, s2⟩ := q; simp [hp, hl, Agree] at h2
+    | error e' =>
+      simp only [hp, hl, Agree] at h2
+      cases hv : liftJvp ad vt varF rngF attrs f args tangents s with
+      | ok q => obtain ⟨r, s2⟩ := q; simp [hv, hl] at h1
+      | error e'' => simp only [hv, hl] at h1; simp only; rw [h2, h1]
+  | ok q0 =>
+    obtain ⟨y0, s0⟩ := q0
+    cases hl : liftId [jvpTarget vt, varF] [varF] [rngF] .tt attrs f args s with
+    | error e' => simp [hp, hl, Agree] at h2
+    | ok q =>
+      obtain ⟨y, s2⟩ := q
+      simp only [hp, hl, Agree] at h2
+      cases hv : liftJvp ad vt varF rngF attrs f args tangents s with
+      | error e'' => simp [hv, hl] at h1
+      | ok q2 =>
+        obtain ⟨r, s3⟩ := q2
+        simp only [hv, hl] at h1
+        simp only
+        obtain ⟨a1, a3⟩ := h1
+        subst a3
+        rw [h2.1]
+        exact ⟨a1, h2.2.1, h2.2.2.1⟩
+
 /-- **value_and_grad_inputs_only.** `nn.value_and_grad` / `nn.grad` differentiate with respect to the inputs only:
 the function handed to `jax.vjp` takes no variable argument (all lifted collections are closed over), and the
 result carries exactly one gradient per primal input. -/
@@ -279,6 +364,84 @@ theorem value_and_grad_inputs_only (ad : AD) (varF rngF : LFilter) (hasAux : Boo
         have hs := ad.vjp_shape _ _ _ _ _ (y.map (fun _ => 1)) hv
         refine ⟨hs.2, ?_⟩
         intro hf; simp [hf]
+
+private theorem aux_vag_forward (ad : AD) (varF rngF : LFilter) (hasAux : Bool) (nY : Nat)
+    (attrs : List (String × Int)) (f : Fn) (args : List Int) (s : ScopeSt) :
+    match liftValueAndGrad ad varF rngF hasAux nY attrs f args s, liftId [varF] [varF] [rngF] .tt attrs f args s with
+    | .ok (r, s1), .ok (y, s2) =>
+        r.y = (splitAux hasAux nY y.vals).1 ∧ r.aux = (if hasAux then some (splitAux hasAux nY y.vals).2 else none) ∧ s1 = s2
+    | .error e, .error e' => e = e'
+    | _, _ => False := by
+  simp only [liftValueAndGrad, liftId, pack]
+  have hval := ad.vjp_val (vagClosure attrs f hasAux nY (partialPack [varF] [varF] [rngF] s) s.counters) ([], args)
+  cases hv : ad.vjp (vagClosure attrs f hasAux nY (partialPack [varF] [varF] [rngF] s) s.counters) ([], args) with
+  | error e =>
+    rw [hv] at hval
+    simp only [vagClosure] at hval
+    cases hr : runInner attrs f args LFilter.tt (partialPack [varF] [varF] [rngF] s)
+        (partialPack [varF] [varF] [rngF] s).varGroups (partialPack [varF] [varF] [rngF] s).rngGroups s.counters with
+    | error e' => simp only [hr] at hval; simp only; exact (Except.error.inj hval)
+    | ok q => obtain ⟨y, out, c⟩ := q; simp [hr] at hval
+  | ok q =>
+    obtain ⟨y, bwd, aux, out, ctr'⟩ := q
+    rw [hv] at hval
+    simp only [vagClosure] at hval
+    cases hr : runInner attrs f args LFilter.tt (partialPack [varF] [varF] [rngF] s)
+        (partialPack [varF] [varF] [rngF] s).varGroups (partialPack [varF] [varF] [rngF] s).rngGroups s.counters with
+    | error e' => simp [hr] at hval
+    | ok q2 =>
+      obtain ⟨y2, out2, c2⟩ := q2
+      simp only [hr, Except.ok.injEq, Prod.mk.injEq] at hval
+      obtain ⟨h1, h2, h3, h4⟩ := hval
+      subst h1; subst h2; subst h3; subst h4
+      simp only
+      cases publish { s with counters := ctr' } out with
+      | error e => trivial
+      | ok s3 => exact ⟨rfl, rfl, rfl⟩
+
+/-- `nn.value_and_grad` / `nn.grad`: value and aux are the plain call's, the forward pass's side effects are published
+exactly once -/
+theorem vag_forward_effects_published_once (ad : AD) (varF rngF : LFilter) (hasAux : Bool) (nY : Nat)
+    (attrs : List (String × Int)) (f : Fn) (args : List Int) (s : ScopeSt) (hwf : VarsWF s.vars) (hfz : s.FrozenOk)
+    (hin : ∀ c, c ∈ cols f.body → inFilter varF c = true)
+    (hrng : ∀ r, r ∈ rngDeps f.body → (alookup r s.rngs).isSome = true → inFilter rngF r = true) :
+    match runFn attrs f args s, liftValueAndGrad ad varF rngF hasAux nY attrs f args s with
+    | .ok (y, s1), .ok (r, s2) =>
+        r.y = (splitAux hasAux nY y.vals).1 ∧ r.aux = (if hasAux then some (splitAux hasAux nY y.vals).2 else none) ∧
+        SameVars s1.vars s2.vars ∧ s1.counters = s2.counters
+    | .error e, .error e' => e = e'
+    | _, _ => False := by
+  have h1 := aux_vag_forward ad varF rngF hasAux nY attrs f args s
+  have h2 := liftId_agree [varF] [varF] [rngF] .tt attrs f args s hwf hfz
+    (by intro c hc; simp [anyMatch, hin c hc])
+    (by intro c hc _; simp [anyMatch, hin c (wcols_sub_cols _ c hc), inFilter])
+    (by intro r hr hs; simp [anyMatch, hrng r hr hs])
+  cases hp : runFn attrs f args s with
+  | error e =>
+    cases hl : liftId [varF] [varF] [rngF] .tt attrs f args s with
+    | ok q => obtain ⟨y, s2⟩ := q; simp [hp, hl, Agree] at h2
+    | error e' =>
+      simp only [hp, hl, Agree] at h2
+      cases hv : liftValueAndGrad ad varF rngF hasAux nY attrs f args s with
+      | ok q => obtain ⟨r, s2⟩ := q; simp [hv, hl] at h1
+      | error e'' => simp only [hv, hl] at h1; simp only; rw [h2, h1]
+  | ok q0 =>
+    obtain ⟨y0, s0⟩ := q0
+    cases hl : liftId [varF] [varF] [rngF] .tt attrs f args s with
+    | error e' => simp [hp, hl, Agree] at h2
+    | ok q =>
+      obtain ⟨y, s2⟩ := q
+      simp only [hp, hl, Agree] at h2
+      cases hv : liftValueAndGrad ad varF rngF hasAux nY attrs f args s with
+      | error e'' => simp [hv, hl] at h1
+      | ok q2 =>
+        obtain ⟨r, s3⟩ := q2
+        simp only [hv, hl] at h1
+        simp only
+        obtain ⟨a1, a2, a3⟩ := h1
+        subst a3
+        rw [h2.1]
+        exact ⟨a1, a2, h2.2.1, h2.2.2.1⟩
 
 /-- **custom_vjp_forward_value.** Outside differentiation `nn.custom_vjp(fn, forward_fn, backward_fn)` computes
 `fn`: for *every* forward rule, residual encoding and backward rule the call equals the identity-lifted `fn`
